@@ -121,8 +121,16 @@ def _case(draw, tier):
     extra = []
     if mutex is not None and mutex["param"] != "zz" and mutex["param"] not in ref.producers(topo):
         pm = mutex["param"]
-        extra = [{"k": "func", "name": "br_a", "params": [], "defaults": {}, "outs": [pm]}, {"k": "func", "name": "br_b", "params": [], "defaults": {}, "outs": [pm]},
-                 {"k": "ifelse", "name": "mx", "params": [], "defaults": {}, "t": "br_a", "f": "br_b", "table": [True, False]}]
+        if draw(st.booleans()):
+            extra = [{"k": "func", "name": "br_a", "params": [], "defaults": {}, "outs": [pm]}, {"k": "func", "name": "br_b", "params": [], "defaults": {}, "outs": [pm]},
+                     {"k": "ifelse", "name": "mx", "params": [], "defaults": {}, "t": "br_a", "f": "br_b", "table": [True, False]}]
+        else:
+            # the two exclusive producers live in SIBLING containers (same depth, same output name)
+            mutex["nested"] = True
+            extra = [{"k": "graph", "name": c_, "flat_inputs": [], "flat_outputs": [pm], "renames": [],
+                      "graph": {"name": c_, "nodes": [{"k": "func", "name": b_, "params": [], "defaults": {}, "outs": [pm]}]}} for c_, b_ in (("cA", "br_a"), ("cB", "br_b"))]
+            extra.append({"k": "ifelse", "name": "mx", "params": [], "defaults": {}, "t": "cA", "f": "cB", "table": [True, False]})
+            depth = 1
     else:
         mutex = None
     return {"topo": topo, "nodes": draw(gen.permuted(nodes + gates + extra)), "depth": depth, "thin": thin, "renamed": renamed, "mutex": mutex, "siblings": siblings}
@@ -173,7 +181,7 @@ def _deps(case, leaf_path, tree):
             if p not in prod:
                 if mx and p == mx["param"]:
                     for b in ("br_a", "br_b"):
-                        deps.append(("data", b, leaf_path[n["name"]], p))
+                        deps.append(("data", leaf_path[b], leaf_path[n["name"]], p))
                     continue
                 input_consumers.setdefault(p, []).append(leaf_path[n["name"]])
     def gates_of(nodes, prefix):
@@ -261,8 +269,8 @@ ORDER = [[]]  # node-list order of the top level (the graph links a consumer to 
 
 def _second_producer(p, v, order):
     """p is a producer of the shared name v that is not the first one in the node list (known finding F9)."""
-    prods = [n["name"] for n in order if v in n.get("outs", [])]
-    return len(prods) >= 2 and p != prods[0]
+    prods = [n["name"] for n in order if v in (n.get("outs") or n.get("flat_outputs") or [])]
+    return len(prods) >= 2 and p.split("/")[0] != prods[0]
 
 
 def _folded(kind, p, c, deps):
